@@ -387,6 +387,7 @@ func main() {
 	genClone(o, pkgs["."])
 	genSessions(o, all)
 	genMisc(o, pkgs, all)
+	genLockSections(o, pkgs["."], *repo)
 
 	if *factsPath != "" {
 		b, _ := json.MarshalIndent(o.facts, "", " ")
@@ -933,4 +934,158 @@ func genMisc(o *out, pkgs map[string]map[string]*ast.File, all []funcInfo) {
 		}
 	}
 	o.write("Misc", b.String())
+}
+
+
+// ---- C14: critical sections of prepare_stmt.go ------------------------------------------------
+// For every Mux.Lock()/RLock() .. Unlock()/RUnlock() section (tracked through branches; a deferred unlock extends the
+// section to the end of the function) list what happens while the lock is held: driver / database-sql calls,
+// channel operations, go statements.  Model/StmtCache.lean treats each section as ONE atomic step; the theorem
+// C14_lock_sections_atomic checks (decide) that no section contains a blocking operation.
+
+type lockSec struct {
+	fn, kind string
+	line     int
+	deferred bool
+	calls    []string
+	chanOps  int
+	goStmts  int
+}
+
+var blockingCalls = map[string]bool{"PrepareContext": true, "ExecContext": true, "QueryContext": true, "QueryRowContext": true,
+	"BeginTx": true, "StmtContext": true, "Commit": true, "Rollback": true, "Ping": true, "Close": true, "Wait": true, "Conn": true}
+
+func muxCall(s ast.Stmt) (string, bool) {
+	var call *ast.CallExpr
+	deferred := false
+	switch x := s.(type) {
+	case *ast.ExprStmt:
+		call, _ = x.X.(*ast.CallExpr)
+	case *ast.DeferStmt:
+		call, deferred = x.Call, true
+	}
+	if call == nil {
+		return "", false
+	}
+	sel, ok := call.Fun.(*ast.SelectorExpr)
+	if !ok {
+		return "", false
+	}
+	inner, ok := sel.X.(*ast.SelectorExpr)
+	if !ok || inner.Sel.Name != "Mux" {
+		return "", false
+	}
+	return sel.Sel.Name, deferred
+}
+
+func genLockSections(o *out, files map[string]*ast.File, repo string) {
+	var secs []*lockSec
+	fset := token.NewFileSet()
+	f, err := parser.ParseFile(fset, filepath.Join(repo, "prepare_stmt.go"), nil, 0)
+	if err != nil {
+		o.write("LockSections", "-- prepare_stmt.go not parseable: facts unknown\n")
+		return
+	}
+	scan := func(n ast.Node, held *lockSec) {
+		if held == nil || n == nil {
+			return
+		}
+		ast.Inspect(n, func(x ast.Node) bool {
+			switch y := x.(type) {
+			case *ast.GoStmt:
+				held.goStmts++
+				return false
+			case *ast.FuncLit:
+				return false
+			case *ast.UnaryExpr:
+				if y.Op == token.ARROW {
+					held.chanOps++
+				}
+			case *ast.SendStmt:
+				held.chanOps++
+			case *ast.SelectStmt:
+				held.chanOps++
+			case *ast.CallExpr:
+				if sel, ok := y.Fun.(*ast.SelectorExpr); ok && blockingCalls[sel.Sel.Name] {
+					held.calls = append(held.calls, sel.Sel.Name)
+				}
+			}
+			return true
+		})
+	}
+	var walk func(fn string, stmts []ast.Stmt, held *lockSec) *lockSec
+	walk = func(fn string, stmts []ast.Stmt, held *lockSec) *lockSec {
+		for _, st := range stmts {
+			if name, deferred := muxCall(st); name != "" {
+				switch {
+				case name == "Lock" || name == "RLock":
+					held = &lockSec{fn: fn, kind: name, line: fset.Position(st.Pos()).Line}
+					secs = append(secs, held)
+				case deferred:
+					if held != nil {
+						held.deferred = true
+					}
+				default:
+					held = nil
+				}
+				continue
+			}
+			switch x := st.(type) {
+			case *ast.IfStmt:
+				scan(x.Init, held)
+				scan(x.Cond, held)
+				h2 := walk(fn, x.Body.List, held)
+				if !endsWithReturn(x.Body) {
+					held = h2
+				}
+				if eb, ok := x.Else.(*ast.BlockStmt); ok {
+					h3 := walk(fn, eb.List, held)
+					if !endsWithReturn(eb) {
+						held = h3
+					}
+				} else if x.Else != nil {
+					walk(fn, []ast.Stmt{x.Else}, held)
+				}
+			case *ast.BlockStmt:
+				held = walk(fn, x.List, held)
+			case *ast.RangeStmt:
+				scan(x.X, held)
+				held = walk(fn, x.Body.List, held)
+			case *ast.ForStmt:
+				held = walk(fn, x.Body.List, held)
+			case *ast.DeferStmt:
+				// runs at return: after a non-deferred Unlock, or (for deferred unlocks, LIFO) possibly under the lock
+				if held != nil && held.deferred {
+					scan(x.Call, held)
+				}
+			default:
+				scan(st, held)
+			}
+		}
+		return held
+	}
+	for _, d := range f.Decls {
+		fd, ok := d.(*ast.FuncDecl)
+		if !ok || fd.Body == nil {
+			continue
+		}
+		name := fd.Name.Name
+		if fd.Recv != nil && len(fd.Recv.List) > 0 {
+			name = strings.TrimPrefix(src(fd.Recv.List[0].Type), "*") + "." + name
+		}
+		walk(name, fd.Body.List, nil)
+	}
+	var b strings.Builder
+	b.WriteString("structure LockSection where\n  fn : String\n  kind : String\n  line : Nat\n  deferred : Bool\n  blockingCalls : List String\n  chanOps : Nat\n  goStmts : Nat\nderiving Repr, DecidableEq\n\n")
+	b.WriteString("/-- prepare_stmt.go: every Mux.Lock/RLock section and what is executed while the lock is held -/\ndef lockSections : List LockSection := [\n")
+	for i, s := range secs {
+		if i > 0 {
+			b.WriteString(",\n")
+		}
+		fmt.Fprintf(&b, "  { fn := %s, kind := %s, line := %d, deferred := %s, blockingCalls := %s, chanOps := %d, goStmts := %d }",
+			lstr(s.fn), lstr(s.kind), s.line, lbool(s.deferred), lstrs(s.calls), s.chanOps, s.goStmts)
+	}
+	b.WriteString("\n]\n")
+	o.write("LockSections", b.String())
+	o.facts["lockSections"] = len(secs)
 }
